@@ -254,3 +254,29 @@ CHECKS += [
     Check("greedy_in_sim", sim_execute_factory(), strategy=greedy_worlds, budget={"quick": 800, "thorough": 20000}),
     Check("planners_in_sim", sim_execute_factory(), strategy=planner_sim_worlds, budget={"quick": 160, "thorough": 4000}),
 ]
+
+
+# ----------------------------------------------------------------------------- Clockwork across invocations (it keeps queues)
+def exec_clockwork_history(case):
+    """C15's operation histories, judged for C10's clauses only: one decision per request and invocation, no side effect on
+    the live cluster, no exception."""
+    from pbt.props import c15
+
+    res = c15.execute(case)
+    keep = []
+    for v in res.violations:
+        clause = v.sig.split(".")[1] if "." in v.sig else v.sig
+        if clause in ("several_decisions_for_one_request", "side_effect") or clause.startswith("raises"):
+            v.sig = "policy.history." + v.sig.split(".", 1)[1] + ".Clockwork" if "." in v.sig else v.sig
+            keep.append(v)
+    res.violations = keep
+    return res
+
+
+def clockwork_histories(tier):
+    from pbt.props import c15
+
+    return c15.history_strategy(tier)
+
+
+CHECKS += [Check("clockwork_history", exec_clockwork_history, strategy=clockwork_histories, budget={"quick": 800, "thorough": 20000})]
